@@ -17,7 +17,7 @@ Proof. destruct a as [[]| | |], b as [[]| | |]; cbn; congruence. Qed.
 Lemma obs_cells_complete : map fst obs_edges = all_cells.
 Proof. vm_compute. reflexivity. Qed.
 
-Lemma all_cells_count : length all_cells = 320.
+Lemma all_cells_count : length all_cells = 340.
 Proof. vm_compute. reflexivity. Qed.
 
 Lemma obs_edges_eq_doc_b :
@@ -69,12 +69,8 @@ Lemma stmt_scopes_eq_doc :
                     Bool.eqb (mem_scope s error_stmt_scopes) (doc_allows s AErrorStmt)) all_scopes = true.
 Proof. vm_compute. reflexivity. Qed.
 
-(* the linter's expects lists are the documented return states, except that the linter does not
-   list `error` for vcl_pass (where the error statement itself is allowed) *)
-Definition linter_omits (s : scope) (r : rstate) : bool :=
-  match s, r with Pass, SError => true | _, _ => false end.
-
+(* the linter's return-action lists are exactly the documented return states *)
 Lemma linter_expects_eq_doc :
   forallb (fun s => forallb (fun r =>
-     Bool.eqb (mem_rstate r (lint_expects s)) (doc_allows s (ARet r) && negb (linter_omits s r))) all_rstates) all_scopes = true.
+     Bool.eqb (mem_rstate r (lint_expects s)) (doc_allows s (ARet r))) all_rstates) all_scopes = true.
 Proof. vm_compute. reflexivity. Qed.
